@@ -397,7 +397,8 @@ VARIANT_SVC = {"view.update": 15, "view.get": 8, "pipe": 9, "get_draw": 10, "fil
                "filter_for_rate": 12, "choice": 13, "table": 14}
 # (view.update through a full view can never add a column, so during the initial creation - where every update must bring
 # a new column - it fails by itself AFTER the guard let it through)
-STRICT_EXEMPT = {("view.update@full", "population_creation")}
+# likewise a second update of a column that an earlier call of the same hook has just created brings no new column)
+STRICT_EXEMPT = {("view.update@" + v, "population_creation") for v in ("full", "twice1", "twice2", "after_sub", "narrow")}
 
 
 EMIT_CHANNELS = ["post_setup", "time_step__prepare", "time_step", "time_step__cleanup", "collect_metrics",
@@ -431,9 +432,14 @@ def variants():
             streams.append("crn")
         if "component" in params:
             streams.append("component")
-        pipes = ["late", "union"] + (["rate"] if hasattr(ValuesInterface, "register_rate_producer") else [])
-        tables = ["cat", "interp", "multi"] + (["comp"] if hasattr(Component, "build_lookup_table") else [])
-        _VARIANTS.update(streams=streams, views=["str", "full", "query"], pipes=pipes, tables=tables)
+        # ... and HISTORIES of requests (a handle must be guarded whatever was requested before): the same request twice,
+        # a view over the columns (and effective query) of an earlier SUB-view, a narrower view after a wider one, a second
+        # stream, get_value twice after the producer, two tables built from equal data
+        streams.append("second")
+        pipes = ["late", "late2", "union"] + (["rate"] if hasattr(ValuesInterface, "register_rate_producer") else [])
+        tables = ["cat", "interp", "multi", "equal1", "equal2"] + (["comp"] if hasattr(Component, "build_lookup_table") else [])
+        _VARIANTS.update(streams=streams, views=["str", "full", "query", "twice1", "twice2", "after_sub", "narrow"],
+                         pipes=pipes, tables=tables)
     return _VARIANTS
 
 
@@ -569,8 +575,20 @@ def make_classes():
             self.vviews["str"] = builder.population.get_view(self.col("e"))
             self.vviews["full"] = builder.population.get_view([])
             self.vviews["query"] = builder.population.get_view([self.col("g")], query=f"{self.col('g')} >= 0")
-            self.vview_col = {"str": self.col("e"), "full": self.col("a"), "query": self.col("g")}
+            # histories: the same request twice; the columns and effective query of the sub-view obtained EARLIER (the
+            # sub-view itself stays F-H; the view returned by get_view must be guarded whatever exists already); a narrower
+            # view after the wide one
+            self.vviews["twice1"] = builder.population.get_view([self.col("e")])
+            self.vviews["twice2"] = builder.population.get_view([self.col("e")])
+            if self.use_subviews:
+                self.early_sub = self.view.subview([self.col("c"), self.col("d")])      # requested first ...
+                self.vviews["after_sub"] = builder.population.get_view([self.col("c"), self.col("d")])   # ... then this
+            self.vviews["narrow"] = builder.population.get_view([self.col("a"), self.col("b")])
+            self.vview_col = {"str": self.col("e"), "full": self.col("a"), "query": self.col("g"), "twice1": self.col("e"),
+                              "twice2": self.col("e"), "after_sub": self.col("c"), "narrow": self.col("b")}
+            self.vstreams["second"] = builder.randomness.get_stream(f"c07_stream_second_{t}")
             self.vpipes["late"] = builder.value.get_value(f"c07_val_{t}")          # requested AFTER the producer
+            self.vpipes["late2"] = builder.value.get_value(f"c07_val_{t}")         # ... and once more
             self.vpipes["union"] = builder.value.register_value_producer(
                 f"c07_union_{t}", source=self.list_source, preferred_combiner=list_combiner,
                 preferred_post_processor=union_post_processor)
@@ -584,6 +602,8 @@ def make_classes():
                 pd.DataFrame({f"{a}_start": [0.0, 5.0], f"{a}_end": [5.0, 10.0], "value": [1.0, 2.0]}), key_columns=[],
                 parameter_columns=[a], value_columns=["value"])
             self.vtables["multi"] = builder.lookup.build_table([1, 2], value_columns=["p", "q"])
+            self.vtables["equal1"] = builder.lookup.build_table(11)             # two tables from equal data
+            self.vtables["equal2"] = builder.lookup.build_table(11)
             if "comp" in v["tables"]:
                 self.vtables["comp"] = self.build_lookup_table(builder, 3)
             for ch in ("post_setup", "time_step__prepare", "time_step", "time_step__cleanup", "collect_metrics",
